@@ -147,6 +147,11 @@ SBuf::rawAppendFinish(const char *start, size_type actualSize)
     Must(store_->canAppend(off_ + len_, actualSize));
     debugs(24, 8, id << " finish appending " << actualSize << " bytes");
 
+    // appending nothing claims no space: canAppend(x, 0) is true even for a blob
+    // tail that belongs to another SBuf, so we must not adjust the blob size
+    if (!actualSize)
+        return;
+
     size_type newSize = length() + actualSize;
     Must3(newSize <= min(maxSize, store_->capacity-off_), "raw append fits", Here());
     len_ = newSize;
@@ -156,6 +161,7 @@ SBuf::rawAppendFinish(const char *start, size_type actualSize)
 char *
 SBuf::rawSpace(size_type minSpace)
 {
+    Must(minSpace <= maxSize); // or the subtraction below wraps around
     Must(length() <= maxSize - minSpace);
     debugs(24, 7, "reserving " << minSpace << " for " << id);
     ++stats.rawAccess;
@@ -532,7 +538,7 @@ SBuf::chop(size_type pos, size_type n)
     if (pos == npos || pos > length())
         pos = length();
 
-    if (n == npos || (pos+n) > length())
+    if (n == npos || n > length() - pos) // not (pos+n): that sum may wrap around
         n = length() - pos;
 
     // if there will be nothing left, reset the buffer while we can
